@@ -1183,3 +1183,70 @@ def _typed(S, ev, lang):
                 out.append((pos, ["new", None, {"type": r[1]}]))
     out.sort(key=lambda x: x[0])
     return out
+
+
+# ====================================================================== pure judgement (usable inside a worker)
+def judge_pure(lang, text, e, legs=("S1", "S3")):
+    """S1 (declarations, with type names) and S3 (balance) of one real text against the export `e`;
+    -> {"n": declarations compared, "synthetic": n, "diffs": [(leg, signature, detail)]}"""
+    out = {"n": 0, "synthetic": 0, "diffs": []}
+    if "S3" in legs:
+        b = balance(tokenize(text))
+        if b is not None:
+            out["diffs"].append(("S3 balance", "unbalanced:%s:%s" % (lang, b["error"].split()[0]),
+                                 dict(b, around=text[max(0, b["pos"] - 100):b["pos"] + 60])))
+    if "S1" in legs:
+        inv = inventory(e, skip_defaults=(lang == "java"))
+        exp = expected(lang, inv, e)
+        got = scan(lang, text)
+        d, synth = compare(lang, exp, got)
+        out["n"], out["synthetic"] = len(exp), synth
+        if d is not None:
+            out["diffs"].append(("S1 declarations", "declarations-differ:%s:%s" % (lang, diff_tag(d)), d))
+    return out
+
+
+def diff_tag(d):
+    if d.get("declaration"):
+        return d["declaration"][0]
+    return (d.get("scanned") or d.get("expected") or ["?"])[0]
+
+
+def changed_sites(e1, e2, lang="kotlin"):
+    """the declarations at which two exports of the same program shape carry different types:
+    [[kind, name, old type text, new type text]] with kind in var_type / ret_type / new_type_argument /
+    call_type_argument / other (types rendered by `type_text(lang, …)`; a structural change -> [["shape", …]])"""
+    out = []
+
+    def tx(e, i):
+        return None if i is None else (type_text(lang, e, i) or "?")
+
+    def W(a, b):
+        if isinstance(a, list) and isinstance(b, list):
+            if len(a) != len(b):
+                out.append(["shape", None, None, None])
+                return
+            for x, y in zip(a, b):
+                W(x, y)
+            return
+        if not isinstance(a, dict) or not isinstance(b, dict):
+            return
+        if a.get("n") != b.get("n"):
+            out.append(["shape", a.get("n"), None, None])
+            return
+        k = a.get("n")
+        if k == "var" and tx(e1, a["varType"]) != tx(e2, b["varType"]):
+            out.append(["var_type", a["name"], tx(e1, a["varType"]), tx(e2, b["varType"])])
+        if k == "func" and tx(e1, a["retType"]) != tx(e2, b["retType"]):
+            out.append(["ret_type", a["name"], tx(e1, a["retType"]), tx(e2, b["retType"])])
+        if k == "new" and (tx(e1, a["t"]) != tx(e2, b["t"]) or a["canInfer"] != b["canInfer"]):
+            out.append(["new_type_argument", e1["tt"][a["t"]].get("name"), tx(e1, a["t"]), tx(e2, b["t"])])
+        if k == "call" and ([tx(e1, t) for t in a["targs"]] != [tx(e2, t) for t in b["targs"]]
+                            or a["canInfer"] != b["canInfer"]):
+            out.append(["call_type_argument", a["func"], ",".join(str(tx(e1, t)) for t in a["targs"]),
+                        ",".join(str(tx(e2, t)) for t in b["targs"])])
+        for key, v in a.items():
+            if isinstance(v, (dict, list)) and key in b:
+                W(v, b[key])
+    W(e1["decls"], e2["decls"])
+    return out
